@@ -107,6 +107,11 @@ def _work(batch):
         try:
             r = _MODULE.run_instance(inst, _TIER)
             r.nontrivial = {k if isinstance(k, int) else hash(k) for k in r.nontrivial}  # bounded memory
+            if engine.RESEEDS and getattr(_MODULE, "RNG_LAW_PROPERTY", False) and not r.violations:
+                # properties that quantify over the distribution of the RNG: library code that re-seeds the shared
+                # generator (at import or in a call) replaces that distribution by one fixed stream
+                r.violation(f"{_MODULE.ID}:library-reseeds-rng",
+                            f"library code re-seeds the shared random generator: {engine.RESEEDS[0]}", inst)
             out.merge(r)
         except engine.TreeTooLarge:
             out.skipped += 1
